@@ -69,6 +69,9 @@ func serveDevice(master *os.File, dev *DevPort, wg *sync.WaitGroup) {
 				dev.queue = nil
 				dev.Write(frame)
 				if len(dev.queue) > 0 {
+					if dev.LatencyMs > 0 {
+						time.Sleep(time.Duration(dev.LatencyMs) * time.Millisecond)
+					}
 					master.Write(dev.queue)
 				}
 			}
@@ -218,23 +221,28 @@ func suiteC20(rng *Rng, thorough bool, s *Sink) {
 		silent   int // -1: answers everything; k: silent after k answered Gets
 		noPing   bool
 		midFrame bool // the device dies in the middle of the frame answering the (k+1)-th Get
+		latency  int  // milliseconds the device takes for every answer (well below the 200 ms read timeout)
+		async    int  // an asynchronous frame precedes every async-th answer
 	}
 	var scens []scen
 	for i, id := range ids {
-		scens = append(scens, scen{id, false, false, -1, false, false})
-		scens = append(scens, scen{id, i%2 == 0, true, -1, false, false})
+		scens = append(scens, scen{id, false, false, -1, false, false, 0, 0})
+		scens = append(scens, scen{id, i%2 == 0, true, -1, false, false, 0, 0})
 		if thorough {
-			scens = append(scens, scen{id, true, false, -1, false, false}, scen{id, true, true, -1, false, false})
+			scens = append(scens, scen{id, true, false, -1, false, false, 0, 0}, scen{id, true, true, -1, false, false, 0, 0})
 		}
 	}
+	// a slow but healthy device (75 ms per answer: about four seconds for the whole list), a device that keeps sending
+	// asynchronous frames between its answers (with the io log on: it must still replay)
+	scens = append(scens, scen{id: 0xA05F, silent: -1, latency: 75}, scen{id: 0xA381, ioLog: true, silent: -1, async: 4}, scen{id: 0xA056, ioLog: true, verbose: true, silent: -1, async: 1})
 	// silent exactly at the last registers read (the field-list group comes last): -2 = after all but one answer, -3 = all but two
-	scens = append(scens, scen{0xA056, false, false, -2, false, false}, scen{0xA231, false, true, -2, false, false}, scen{0xA231, true, false, -3, false, false},
-		scen{0xA05F, false, false, -2, false, false}, scen{0x203, false, false, -2, false, false})
-	scens = append(scens, scen{0xA056, false, false, 0, false, false}, scen{0xA381, false, true, 7, false, false}, scen{0x203, true, false, 3, false, false}, scen{0xA231, false, false, -1, true, false},
-		scen{0xA053, false, false, 5, false, true}, scen{0x203, false, true, 0, false, true})
+	scens = append(scens, scen{0xA056, false, false, -2, false, false, 0, 0}, scen{0xA231, false, true, -2, false, false, 0, 0}, scen{0xA231, true, false, -3, false, false, 0, 0},
+		scen{0xA05F, false, false, -2, false, false, 0, 0}, scen{0x203, false, false, -2, false, false, 0, 0})
+	scens = append(scens, scen{0xA056, false, false, 0, false, false, 0, 0}, scen{0xA381, false, true, 7, false, false, 0, 0}, scen{0x203, true, false, 3, false, false, 0, 0}, scen{0xA231, false, false, -1, true, false, 0, 0},
+		scen{0xA053, false, false, 5, false, true, 0, 0}, scen{0x203, false, true, 0, false, true, 0, 0})
 	if thorough {
 		for k := 0; k < 30; k++ {
-			scens = append(scens, scen{ids[rng.Intn(len(ids))], rng.Bool(), rng.Bool(), rng.Intn(40), false, rng.Bool()})
+			scens = append(scens, scen{ids[rng.Intn(len(ids))], rng.Bool(), rng.Bool(), rng.Intn(40), false, rng.Bool(), 0, 0})
 		}
 	}
 	for _, sc := range scens {
@@ -247,6 +255,8 @@ func suiteC20(rng *Rng, thorough bool, s *Sink) {
 		dev.NoPing = sc.noPing
 		dev.SilentAfter = sc.silent
 		dev.DieMidFrame = sc.midFrame
+		dev.LatencyMs = sc.latency
+		dev.AsyncEvery = sc.async
 		var mp []string
 		wantText := map[string]string{}
 		add := func(kind int, it poolItem, e *veregister.EnumRegisterStruct) {
@@ -292,6 +302,12 @@ func suiteC20(rng *Rng, thorough bool, s *Sink) {
 			ping = "err"
 		}
 		op := fmt.Sprintf("CL %d %s %s %s", sc.id, ping, sil, m)
+		if sc.latency > 0 {
+			op += fmt.Sprintf(" mut:device-takes-%dms-per-answer", sc.latency)
+		}
+		if sc.async > 0 {
+			op += fmt.Sprintf(" mut:async-frame-before-every-%d-answers", sc.async)
+		}
 		if sc.midFrame {
 			op += " mut:device-dies-mid-frame"
 		}
